@@ -49,6 +49,67 @@ pub fn fx_tick(k: u32) {
     });
 }
 
+// ---- "another thread" acting at the shim's hook events (allocator calls and buffer accesses of the crate)
+
+thread_local! {
+    static HOOK_FX_ARMED: std::cell::Cell<bool> = const { std::cell::Cell::new(false) };
+    static HOOK_FX_COUNT: std::cell::Cell<u32> = const { std::cell::Cell::new(0) };
+    static HOOK_FX_AT: std::cell::Cell<u32> = const { std::cell::Cell::new(0) };
+    static HOOK_FX_DROP: std::cell::Cell<bool> = const { std::cell::Cell::new(false) };
+    static HOOK_FX_FIRED: std::cell::Cell<bool> = const { std::cell::Cell::new(false) };
+    static HOOK_FX_TARGET: std::cell::Cell<*mut Option<lean_string::LeanString>> = const { std::cell::Cell::new(std::ptr::null_mut()) };
+    static HOOK_FX_EXTRA: std::cell::RefCell<Vec<lean_string::LeanString>> = const { std::cell::RefCell::new(Vec::new()) };
+}
+
+pub fn hook_fx_arm(at: u16, drop: bool, target: *mut Option<lean_string::LeanString>) {
+    HOOK_FX_COUNT.with(|c| c.set(0));
+    HOOK_FX_AT.with(|c| c.set(at as u32));
+    HOOK_FX_DROP.with(|c| c.set(drop));
+    HOOK_FX_FIRED.with(|c| c.set(false));
+    HOOK_FX_TARGET.with(|c| c.set(target));
+    // room for the extra clone is made now: no allocation inside the measured window
+    HOOK_FX_EXTRA.with(|e| e.borrow_mut().reserve(2));
+    HOOK_FX_ARMED.with(|c| c.set(true));
+}
+
+/// disarms; returns whether the intrusion happened (an extra clone is dropped here)
+pub fn hook_fx_disarm() -> bool {
+    HOOK_FX_ARMED.with(|c| c.set(false));
+    let extra = HOOK_FX_EXTRA.with(|e| std::mem::take(&mut *e.borrow_mut()));
+    drop(extra);
+    HOOK_FX_FIRED.with(|c| c.get())
+}
+
+/// called by the shim at the start of every hook event (never while the shadow heap is borrowed)
+#[inline]
+pub fn hook_fx_tick() {
+    let armed = HOOK_FX_ARMED.try_with(|c| c.get()).unwrap_or(false);
+    if !armed {
+        return;
+    }
+    let k = HOOK_FX_COUNT.with(|c| {
+        let k = c.get();
+        c.set(k + 1);
+        k
+    });
+    if k != HOOK_FX_AT.with(|c| c.get()) || HOOK_FX_FIRED.with(|c| c.get()) {
+        return;
+    }
+    HOOK_FX_FIRED.with(|c| c.set(true));
+    // no further counting while the other thread's action runs (it produces hook events of its own)
+    HOOK_FX_ARMED.with(|c| c.set(false));
+    let target = HOOK_FX_TARGET.with(|c| c.get());
+    // SAFETY: `target` points at a slot the running operation does not use
+    unsafe {
+        if HOOK_FX_DROP.with(|c| c.get()) {
+            *target = None;
+        } else if let Some(s) = (*target).as_ref() {
+            let c = s.clone();
+            HOOK_FX_EXTRA.with(|e| e.borrow_mut().push(c));
+        }
+    }
+}
+
 pub struct PlanIter<I> {
     pub inner: I,
     pub n: u32,
